@@ -398,6 +398,13 @@ func (v *Verifier) evalSelector(s *State, x *ast.SelectorExpr) *Term {
 			if _, isBasic := sel.Recv().Underlying().(*types.Basic); isBasic && len(sel.Index()) == 1 {
 				return v.methodValue(s, mfn.FullName(), v.eval(s, x.X))
 			}
+			// ... or of an interface value (the method value of a nil interface panics)
+			if _, isIface := sel.Recv().Underlying().(*types.Interface); isIface && len(sel.Index()) == 1 {
+				recv := v.eval(s, x.X)
+				v.oblige(s, "nopanic", "nil-iface", Neq(IType(recv), IntLit(0)), x.Pos(), "method value of nil interface value")
+				s.assume(Neq(IType(recv), IntLit(0)))
+				return v.methodValue(s, mfn.FullName(), recv)
+			}
 		}
 		unsupported("method value %s", x.Sel.Name)
 	}
